@@ -4,7 +4,7 @@ import os
 from . import runprop
 
 
-def apiload(ctx, scenarios, workers, race):
+def apiload(ctx, scenarios, workers, race, status=True):
     found = False
     for sc in scenarios:
         args = ["-workers", str(workers)]
@@ -29,7 +29,7 @@ def apiload(ctx, scenarios, workers, race):
             elif r.get("run") != "ref" and r.get("final_equal") is False:
                 ctx.add_violation("API load changed the ledger the daemon computed (scenario %s seed %d): %s" % (sc, ctx.seed, str(r.get("diff", {}).get("only_got", ""))[:300]), rep, name="api-ledger")
                 found = True
-            if api.get("sync_status_uncommitted"):
+            if status and api.get("sync_status_uncommitted"):
                 ctx.add_violation("get-sync-status reported a height whose block was not committed (%s of %s responses, scenario %s)"
                                   % (api.get("sync_status_uncommitted"), api.get("sync_status_calls"), sc), rep, name="api-uncommitted")
                 found = True
